@@ -253,12 +253,12 @@ Drop(dd) ==
 QSubset(aa, bb) ==     \* `b in a`
     /\ "query" \in Acts /\ Held(aa) /\ Held(bb) /\ (SameFrame(Obj(aa), Obj(bb)) \/ FarApart(Obj(aa), Obj(bb)))
     /\ Commit(<<[heap EXCEPT ![regs[aa]].warm = (regs[aa] > 2), ![regs[bb]].warm = (regs[bb] > 2)], regs>>,
-              [call |-> "in", a |-> aa, b |-> bb,
+              [call |-> "in", a |-> aa, b |-> bb, cls |-> ClassOf(Obj(aa).reg, Obj(bb).reg), same |-> (regs[aa] = regs[bb]),
                ans |-> IF SameFrame(Obj(aa), Obj(bb)) THEN RSubset(Obj(bb).reg, Obj(aa).reg) ELSE FarSubset(Obj(bb).reg, Obj(aa).reg)])
 QEq(aa, bb) ==
     /\ "query" \in Acts /\ Held(aa) /\ Held(bb) /\ (SameFrame(Obj(aa), Obj(bb)) \/ FarApart(Obj(aa), Obj(bb)))
     /\ Commit(<<[heap EXCEPT ![regs[aa]].warm = (regs[aa] > 2), ![regs[bb]].warm = (regs[bb] > 2)], regs>>,
-              [call |-> "eq", a |-> aa, b |-> bb,
+              [call |-> "eq", a |-> aa, b |-> bb, cls |-> ClassOf(Obj(aa).reg, Obj(bb).reg), same |-> (regs[aa] = regs[bb]),
                ans |-> SameFrame(Obj(aa), Obj(bb)) /\ Obj(aa).reg = Obj(bb).reg])
 \* a binary query between two shapes whose relative position the model does not interpret
 \* (different, overlapping frames): the answer is not constrained, but like every query it
@@ -339,7 +339,11 @@ NoTrivialStart == TLCGet("level") > 3 \/ \A rr \in Regs : regs[rr] \notin {EID, 
 \* (operands meeting transversally, with predicted segmentation); degenerate operand pairs
 \* are covered by the deterministic one-step corpus
 TransversalOnly == obs.call = "bin" => (obs.cls = "T" /\ obs.segok)
-SimDomain == NoTrivialStart /\ TransversalOnly
+\* binary queries between two DIFFERENT objects whose boundaries coincide or touch are answered
+\* by tolerance in floating point (after an inexact move the "same" region is not exactly the
+\* same); they are covered, without history, by the deterministic query corpus
+QueryTransversal == obs.call \in {"in", "eq"} => (obs.cls = "T" \/ obs.same)
+SimDomain == NoTrivialStart /\ TransversalOnly /\ QueryTransversal
 \* history simulations: build the objects first, then only transform / query / operate
 HistDomain ==
     /\ SimDomain
